@@ -46,15 +46,20 @@ Proof. vm_compute. reflexivity. Qed.
 
 (* hence (prints_admitted_checked_init) the reference semantics prints the same labels, from the
    program's own SAX initial configuration, using the linear rules only *)
+Definition ex_single_b : bool := match ex_prog with Some p' => single_cfg_b (init_config p') | None => false end.
+Lemma ex_single : ex_single_b = true.
+Proof. vm_compute. reflexivity. Qed.
+
 Lemma ex_sax_admits : exists p' C',
   ex_prog = Some p' /\
   sax_steps (p_funs p') false (sax_init p') ["echoed"; "done"; "succ"; "zero"] C'.
 Proof.
   pose proof ex_checked_run as H. unfold checked_labels in H.
+  pose proof ex_single as Hsg. unfold ex_single_b in Hsg.
   destruct ex_prog as [p'|]; [|done]. exists p'.
   destruct (exec_checked 400 pick0 (p_types p') (p_funs p') (init_config p')) as [r|] eqn:Hr; [|done].
   destruct r as [c| |]; try done. simplify_eq.
-  destruct (prints_admitted_checked_init _ _ _ _ Hr) as (_ & Hs).
+  destruct (prints_admitted_checked_init _ _ _ _ Hsg Hr) as (_ & Hs).
   exists (α c). split; [done|]. cbn [res_config] in Hs. by rewrite H in Hs.
 Qed.
 
